@@ -221,7 +221,8 @@ func (e *enc) specX(env *specEnv, x SExpr) (tval, error) {
 		case *types.Slice:
 			return e.mkT(fmt.Sprintf("(select (arr_%s %s) %s)", v.sort, v.t, i.t), u.Elem()), nil
 		case *types.Map:
-			return e.mkT(fmt.Sprintf("(ite (select (dom_%s %s) %s) (select (val_%s %s) %s) %s)", v.sort, v.t, i.t, v.sort, v.t, i.t, e.zero(u.Elem())), u.Elem()), nil
+			e.useMap(v.t, v.sort, u)
+			return e.mkT(fmt.Sprintf("(select (val_%s %s) %s)", v.sort, v.t, i.t), u.Elem()), nil
 		case *types.Basic:
 			return tval{fmt.Sprintf("(str.to_code (str.at %s %s))", v.t, i.t), intTy, "Int"}, nil
 		case *types.Array:
@@ -318,14 +319,6 @@ func (e *enc) specX(env *specEnv, x SExpr) (tval, error) {
 				tv, err := e.specX(env2, t)
 				if err != nil {
 					return tval{}, err
-				}
-				// m[k] on a map is an ite (not allowed in patterns): use the value select it contains
-				if ix, ok := t.(*SIndex); ok && strings.HasPrefix(tv.t, "(ite ") {
-					mv, err1 := e.specX(env2, ix.X)
-					kv, err2 := e.specX(env2, ix.I)
-					if err1 == nil && err2 == nil && strings.HasPrefix(mv.sort, "Map_") {
-						tv.t = fmt.Sprintf("(select (val_%s %s) %s)", mv.sort, mv.t, kv.t)
-					}
 				}
 				ts = append(ts, tv.t)
 			}
@@ -781,6 +774,28 @@ func (e *enc) specCall(env *specEnv, n *SCall) (tval, error) {
 	}
 	f, ok := e.ss.Funcs[n.Fun]
 	if !ok {
+		// a pure Go function of the repository (contract with `pure`): Func or pkgname.Func
+		if pf := e.findPure(env, n.Fun); pf != nil {
+			as, err := args()
+			if err != nil {
+				return tval{}, err
+			}
+			if len(as) != len(pf.Params) {
+				return tval{}, fmt.Errorf("%s takes %d arguments", n.Fun, len(pf.Params))
+			}
+			var ts []Term
+			for i, a := range as {
+				if a.sort != e.so.of(pf.Params[i].Type()) {
+					return tval{}, fmt.Errorf("argument %d of %s has sort %s", i+1, n.Fun, a.sort)
+				}
+				ts = append(ts, a.t)
+			}
+			rs := e.pureApp(pf, ts)
+			if len(rs) != 1 {
+				return tval{}, fmt.Errorf("pure function %s must have exactly one result to be used in a specification", n.Fun)
+			}
+			return e.mkT(rs[0], pf.Signature.Results().At(0).Type()), nil
+		}
 		return tval{}, fmt.Errorf("unknown spec function %s", n.Fun)
 	}
 	if err := e.declareSpecFunc(f); err != nil {
@@ -810,6 +825,12 @@ func (e *enc) specCall(env *specEnv, n *SCall) (tval, error) {
 			return tval{}, err
 		}
 	}
+	if f.Opaque && !env.noUnfold && !boundVarRe.MatchString(t) {
+		// opaque function: its definition is revealed at ground occurrences only
+		if err := e.unfoldRec(env, f, as, t); err != nil {
+			return tval{}, err
+		}
+	}
 	return tval{t, sig.retTy, sig.ret}, nil
 }
 
@@ -822,9 +843,10 @@ type specSig struct {
 }
 
 type specAxiom struct {
-	name string
-	text string
-	uses []string
+	name  string
+	text  string
+	uses  []string
+	lemma bool
 }
 
 func (e *enc) pkgByPath(path string) *types.Package {
@@ -865,7 +887,7 @@ func (e *enc) declareSpecFunc(f *SpecFunc) error {
 	}
 	sig.ret, sig.retTy = e.so.of(rty), rty
 	e.specSigs[f.Name] = sig
-	if f.Body == nil || f.Rec {
+	if f.Body == nil || f.Rec || f.Opaque {
 		sig.decl = fmt.Sprintf("(declare-fun sp_%s (%s) %s)", f.Name, strings.Join(sig.params, " "), sig.ret)
 		return nil
 	}
@@ -892,13 +914,13 @@ func (e *enc) translateAxioms() {
 		if pkg == nil {
 			continue
 		}
-		env := &specEnv{e: e, pkg: pkg, vars: map[string]tval{}, mem: map[string]Term{}}
+		env := &specEnv{e: e, pkg: pkg, vars: map[string]tval{}, mem: map[string]Term{}, noUnfold: true}
 		t, err := e.specBool(env, ax.E)
 		if err != nil {
 			e.cerrs = append(e.cerrs, fmt.Sprintf("CONTRACT-ERROR axiom %s: %v", ax.Name, err))
 			continue
 		}
-		e.axioms = append(e.axioms, specAxiom{name: ax.Name, text: t})
+		e.axioms = append(e.axioms, specAxiom{name: ax.Name, text: t, lemma: ax.Lemma})
 	}
 }
 
@@ -956,7 +978,7 @@ func (e *enc) unfoldRec(env *specEnv, f *SpecFunc, as []tval, app Term) error {
 	}
 	e.unfolded[app] = true
 	pkg := e.pkgByPath(f.PkgPath)
-	env2 := &specEnv{e: e, pkg: pkg, vars: map[string]tval{}, mem: map[string]Term{}, noUnfold: true, bound: env.bound}
+	env2 := &specEnv{e: e, pkg: pkg, vars: map[string]tval{}, mem: map[string]Term{}, noUnfold: f.Rec, bound: env.bound}
 	for i, p := range f.Params {
 		env2.vars[p.Name] = as[i]
 	}
@@ -1005,4 +1027,30 @@ func containsIdent(t, name string) bool {
 
 func isIdentChar(c byte) bool {
 	return c == '_' || c >= '0' && c <= '9' || c >= 'a' && c <= 'z' || c >= 'A' && c <= 'Z' || c == '.' || c == '!'
+}
+
+func (e *enc) findPure(env *specEnv, name string) *ssa.Function {
+	pkgName, fn := "", name
+	if i := strings.Index(name, "."); i >= 0 {
+		pkgName, fn = name[:i], name[i+1:]
+	}
+	for key, ct := range e.ss.Contracts {
+		if !ct.Pure || ct.Key != fn {
+			continue
+		}
+		f, ok := e.w.Funcs[key]
+		if !ok {
+			continue
+		}
+		if pkgName == "" {
+			if env.pkg != nil && f.Pkg.Pkg == env.pkg {
+				return f
+			}
+			continue
+		}
+		if f.Pkg.Pkg.Name() == pkgName {
+			return f
+		}
+	}
+	return nil
 }
